@@ -25,7 +25,7 @@ def plan(tier):
                 sh.append(('full', gi, n, ('dev', sprops.V4, -1.0, 1 if N > 12 else 2, 1500 if tier == 'quick' else 10000), dict(unary_penalty=0.5, nbest=nbest), J))
             if tier == 'thorough' and not real:
                 sh.append(('native', gi, 4, ('dev', sprops.V4, -1.0, 2 if T == 1 else 1, 60000), dict(unary_penalty=0.5, nbest=nbest), J))
-        for base in ('g1', 'g2'):
+        for base in ('g1', 'g2', 'g3'):
             for n in (2, 3):
                 N = S.n_entries(n, T)
                 d = (2 if N <= 16 else 1) + (1 if tier == 'thorough' and N <= 30 else 0)
@@ -39,6 +39,7 @@ def plan(tier):
         # full products for the smallest spaces
         if T == 1:
             sh += sprops.products(gi, 2, [0.0, -1.0, -4.0], dict(unary_penalty=0.5, nbest=2), J)
+    sh += sprops.long_shards(tier, [dict(unary_penalty=0.5, nbest=1), dict(unary_penalty=0.5, nbest=5)], J, allk=True)
     return sh
 
 
